@@ -18,7 +18,7 @@ const c19file = "bus/session/session.go"
 
 // skeleton renders a statement list as tokens; a statement it does not recognise is kept
 // verbatim ("stmt:<text>") so that any new statement changes the fact.
-func skeleton(f *file, stmts []ast.Stmt, closer *[]string) []string {
+func c19Skeleton(f *file, stmts []ast.Stmt, closer *[]string) []string {
 	var out []string
 	txt := func(n ast.Node) string { return strings.Join(strings.Fields(exprText(f.fset, n)), " ") }
 	for _, st := range stmts {
@@ -44,7 +44,7 @@ func skeleton(f *file, stmts []ast.Stmt, closer *[]string) []string {
 			}
 		case *ast.IfStmt:
 			cond := txt(s.Cond)
-			body := skeleton(f, s.Body.List, closer)
+			body := c19Skeleton(f, s.Body.List, closer)
 			switch {
 			case s.Init != nil || s.Else != nil:
 				out = append(out, "stmt:"+txt(s))
@@ -71,7 +71,7 @@ func skeleton(f *file, stmts []ast.Stmt, closer *[]string) []string {
 			} else {
 				out = append(out, "range("+txt(s.X)+"){")
 			}
-			out = append(out, skeleton(f, s.Body.List, closer)...)
+			out = append(out, c19Skeleton(f, s.Body.List, closer)...)
 			out = append(out, "}")
 		case *ast.ReturnStmt:
 			switch {
@@ -104,11 +104,11 @@ func skeleton(f *file, stmts []ast.Stmt, closer *[]string) []string {
 				out = append(out, "insert")
 			case l == "closer" && isFunc:
 				if closer != nil {
-					*closer = skeleton(f, s.Rhs[0].(*ast.FuncLit).Body.List, nil)
+					*closer = c19Skeleton(f, s.Rhs[0].(*ast.FuncLit).Body.List, nil)
 				}
 			case (l == "filter" || l == "consumer") && isFunc:
 				// closures that touch neither the pool nor the lock
-				inner := skeleton(f, s.Rhs[0].(*ast.FuncLit).Body.List, nil)
+				inner := c19Skeleton(f, s.Rhs[0].(*ast.FuncLit).Body.List, nil)
 				for _, t := range inner {
 					if t == "Lock" || t == "Unlock" || t == "RLock" || t == "RUnlock" || t == "insert" || t == "delete" || t == "lookup" {
 						out = append(out, "stmt:"+l+" uses the pool")
@@ -130,7 +130,7 @@ func factsC19() {
 	var closer []string
 	var toks []string
 	if fd != nil {
-		toks = skeleton(f, fd.Body.List, &closer)
+		toks = c19Skeleton(f, fd.Body.List, &closer)
 	}
 	fmt.Fprintf(&out, "Definition f_session_client : list string := %s.\n", strList(toks))
 	fmt.Fprintf(&out, "Definition f_session_closer : list string := %s.\n", strList(closer))
@@ -160,7 +160,7 @@ func factsC19() {
 	_, td := funcDecl(c19file, "Session", "Terminate")
 	var term []string
 	if td != nil {
-		for _, t := range skeleton(f, td.Body.List, nil) {
+		for _, t := range c19Skeleton(f, td.Body.List, nil) {
 			if !strings.HasPrefix(t, "stmt:") && !strings.HasPrefix(t, "if(") && t != "}" {
 				term = append(term, t)
 			}
